@@ -80,7 +80,8 @@ func (g *GTPv1U) DecodeFromBytes(data []byte, df gopacket.DecodeFeedback) error 
 			g.NPDU = data[10]
 		}
 		if g.ExtensionHeaderFlag {
-			extensionFlag := true
+			// a next extension header type of 0 means that none follows (3GPP TS 29.281, 5.2.1)
+			extensionFlag := data[cIndex-1] != 0
 			for extensionFlag {
 				if cIndex >= dLen {
 					return fmt.Errorf("GTP packet too small: %d bytes", dLen)
